@@ -1106,13 +1106,6 @@ package zap
 //@   ensures s != "" && old(log.name) != "" ==> result.name == cat(old(log.name), ".", s)
 //@   ensures *log == old(*log)
 
-// Core.With: the derived core is a new value; the receiver is not modified (frame).
-//@ iface zapcore.Core.With
-//@   params fields
-//@   modifies $user, comp(E:uint8)
-//@   ensures result != nil
-//@   ensures elems_frame(type(uint8), zero(type([]uint8)))
-
 //@ func (*zap.Logger).With
 //@   props C07
 //@   flags nopanic
